@@ -21,8 +21,11 @@ pub trait LayoutSpec {
     spec fn params_known(pi: &PublicInput) -> bool;
     /// number of columns of the first / second trace for this public input
     spec fn n_cols(pi: &PublicInput) -> (nat, nat);
-    /// what validate_public_input accepts
+    /// exactly what validate_public_input checks (the code's own reading; its relation to the memory-layout oracle of
+    /// property C14 is stated and checked per layout)
     spec fn public_input_ok(pi: &PublicInput, domains: &StarkDomains) -> bool;
+    /// what eval_composition_polynomial relies on (a consequence of public_input_ok, see lemma_composition_pre)
+    spec fn composition_pre(pi: &PublicInput, trace_domain_size: nat) -> bool;
     /// value of the DEEP / out-of-domain-sampling quotient combination for one row of decommitted cells
     spec fn oods_poly_spec(pi: &PublicInput, column_values: Seq<nat>, oods_values: Seq<nat>, coeffs: Seq<nat>, point: nat, oods_point: nat, trace_generator: nat) -> nat;
 }
@@ -42,6 +45,9 @@ pub trait LayoutTrait/*+*/: LayoutSpec/*-*/ {
     /// the interaction elements are the squeezes drawn from a transcript in state (digest, 0), and leave counter `n`
     spec fn ie_ok(ie: &Self::InteractionElements, digest: nat) -> bool;
     spec fn n_ie() -> nat;
+    proof fn lemma_composition_pre(pi: &PublicInput, domains: &StarkDomains)
+        requires Self::public_input_ok(pi, domains)
+        ensures Self::composition_pre(pi, domains.trace_domain_size@);
     /*-*/
     fn eval_composition_polynomial(
         interaction_elements: &Self::InteractionElements,
@@ -55,6 +61,7 @@ pub trait LayoutTrait/*+*/: LayoutSpec/*-*/ {
         requires
             mask_values@.len() == Self::MASK_SIZE,                    // [C01,C18:composition-evaluated-on-exactly-MASK_SIZE-values]
             constraint_coefficients@.len() == Self::N_CONSTRAINTS,    // [C16,C18:one-coefficient-per-constraint]
+            Self::composition_pre(public_input, trace_domain_size@),  // [C18:composition-evaluated-after-public-input-validation]
         ensures
             r.is_ok() ==> r->Ok_0@ == Self::composition_spec(interaction_elements, public_input, fv(mask_values@), fv(constraint_coefficients@), point@, trace_domain_size@, trace_generator@),
     ;
@@ -81,7 +88,7 @@ pub trait LayoutTrait/*+*/: LayoutSpec/*-*/ {
         stark_domains: &StarkDomains,
     ) -> (r: Result<(), PublicInputError>)
         ensures
-            r.is_ok() <==> Self::public_input_ok(public_input, stark_domains),
+            r.is_ok() <==> Self::public_input_ok(public_input, stark_domains), // [C14:validate-public-input-ok-iff-the-layout-checks-hold]
     ;
     fn traces_commit(
         transcript: &mut Transcript,
@@ -130,4 +137,41 @@ pub trait GenericLayoutTrait/*+*/: LayoutSpec/*-*/ {
     ;
 }
 //@end
+} // verus!
+verus! {
+// ---- hoisted iterator expressions of verify_public_input (ASSUMED std semantics, A-iter) --------------------
+use crate::swiftness_air::types::{Page, AddrValue};
+use crate::hashes::pedersen;
+pub open spec fn page_flat(cells: Seq<AddrValue>) -> Seq<nat> decreases cells.len() {
+    if cells.len() == 0 { Seq::<nat>::empty() } else { page_flat(cells.drop_last()) + seq![cells.last().address@, cells.last().value@] }
+}
+#[verifier::external_body]
+pub fn hoisted_flatten_page(page: &Page) -> (r: Vec<Felt>)
+    ensures fv(r@) == page_flat(page.0@), r@.len() == 2 * page.0@.len(),
+{ unimplemented!() }
+/// number of elements of `memory.iter().skip(a).step_by(2).take(b)`
+pub open spec fn sst_len(len: nat, a: nat, b: nat) -> nat {
+    let avail = if a >= len { 0 } else { (len - a + 1) / 2 };
+    if b < avail { b } else { avail as nat }
+}
+#[verifier::external_body]
+pub fn hoisted_skip_step2_take(memory: &Vec<Felt>, a: usize, b: usize) -> (r: Vec<&Felt>)
+    ensures
+        r@.len() == sst_len(memory@.len() as nat, a as nat, b as nat),
+        forall|i: int| 0 <= i < r@.len() ==> *(#[trigger] r@[i]) == memory@[a + 2 * i],
+{ unimplemented!() }
+/// left fold of pedersen over a sequence, starting from 0
+pub open spec fn pedersen_fold(s: Seq<nat>, n: nat) -> nat decreases n {
+    if n == 0 { 0 } else { pedersen(pedersen_fold(s, (n - 1) as nat), s[n - 1]) }
+}
+#[verifier::external_body]
+pub fn hoisted_fold_pedersen_refs(program: &Vec<&Felt>) -> (r: Felt)
+    ensures r@ == pedersen_fold(program@.map_values(|f: &Felt| f@), program@.len()),
+{ unimplemented!() }
+/// the odd-position elements s[1], s[3], ...
+pub open spec fn odd_elems(s: Seq<nat>) -> Seq<nat> { Seq::new(s.len() / 2, |i: int| s[2 * i + 1]) }
+#[verifier::external_body]
+pub fn hoisted_fold_pedersen_odd(output: &[Felt]) -> (r: Felt)
+    ensures r@ == pedersen_fold(odd_elems(fv(output@)), output@.len() / 2),
+{ unimplemented!() }
 } // verus!
